@@ -34,15 +34,15 @@ def gen_cases(rng, tier, count=None):
             out.append(TS.wrapper_case(rng, tier))
         elif k < 16:
             a = SIMPLE[i % len(SIMPLE)]
-            out.append(gen.algo_case(rng, a, tier, fams=TS.FAMS, early_stop=False))
+            out.append(gen.add_midqueries(rng, gen.algo_case(rng, a, tier, fams=TS.FAMS, early_stop=False)))
         elif k < 18:
             c = gen.algo_case(rng, "Zooming", tier, fams=TS.FAMS, early_stop=False,
                               n_choices=[100, 200, 300] if tier == "quick" else [200, 500, 1000])
             c["params"] = {"nu": float(10 ** rng.uniform(-0.5, 1.5)), "rho": float(rng.uniform(0.4, 0.95))}
-            out.append(c)
+            out.append(gen.add_midqueries(rng, c))
         else:
-            out.append(gen.algo_case(rng, "VROOM", tier, fams=TS.FAMS, early_stop=False, inject_p=0.2,
-                                     n_choices=[100, 128, 200]))
+            out.append(gen.add_midqueries(rng, gen.algo_case(rng, "VROOM", tier, fams=TS.FAMS, early_stop=False,
+                                                             inject_p=0.2, n_choices=[100, 128, 200]), 0.4))
     return out
 
 
